@@ -142,6 +142,53 @@ Proof.
   split; [assumption|]. split; [assumption|]. destruct Hmx1 as [_ M]. specialize (M c Hc). lia.
 Qed.
 
+(* the search gives up only when every one of the 10001 probed bases collides: the arrays are then longer than
+   the last probed base *)
+Definition HUGE : N := 2570000.    (* 257 * MAX_ATTEMPTS *)
+
+Lemma search_err : forall fuel d cs ns nb att d1,
+  blen d = clen d -> (forall c, In c cs -> c_sym c < 256) -> ns < 256 ->
+  1 <= nb -> nb <= K0 + 257 * att -> att <= MAX_ATTEMPTS -> (N.to_nat (MAX_ATTEMPTS + 1 - att) <= fuel)%nat ->
+  reloc_search fuel d cs ns nb att = (d1, None) ->
+  nb + 257 * (MAX_ATTEMPTS - att) < blen d1.
+Proof.
+  induction fuel as [|f IH]; intros d cs ns nb att d1 Hl Hcs Hns Hnb1 Hnb Hatt Hfuel S.
+  { exfalso. unfold MAX_ATTEMPTS in *. lia. }
+  cbn [reloc_search] in S.
+  replace (MAX_ATTEMPTS <? att) with false in S by (symmetry; apply N.ltb_ge; assumption).
+  replace (MAX_BASE <? nb) with false in S by (symmetry; apply N.ltb_ge; unfold MAX_BASE, U32_MAX, K0, MAX_ATTEMPTS in *; lia).
+  cbn [orb] in S.
+  assert (Hr : nb <= 3618576) by (unfold K0, MAX_ATTEMPTS in *; lia).
+  assert (Hsat : forall s, s <= 257 -> sat_add nb s = nb + s) by (intros s Hs; apply sat_add_small; unfold U32_MAX; lia).
+  rewrite (Hsat ns) in S by lia. rewrite (Hsat 257) in S by lia.
+  set (mx := fold_right N.max (nb + ns) (map (fun c => sat_add nb (c_sym c)) cs)) in S.
+  destruct (ensure_spec d mx Hl) as (E1 & E2 & E3 & E4). cbv zeta in *.
+  set (d' := da_ensure d mx) in *.
+  (* a collision at nb + x means that slot lies inside the arrays *)
+  assert (Hcol : forall x, nb + x <> 0 -> is_free_word (cget d' (nb + x)) = false -> nb < blen d').
+  { intros x _ F. destruct (N.lt_ge_cases (nb + x) (clen d')) as [H|H]; [lia|].
+    rewrite cget_oob in F by assumption. discriminate. }
+  assert (Hrec : nb < blen d' -> reloc_search f d' cs ns (nb + 257) (att + 1) = (d1, None) ->
+                 nb + 257 * (MAX_ATTEMPTS - att) < blen d1).
+  { intros Hlt S2. destruct (N.eq_dec att MAX_ATTEMPTS) as [Ea|Ea].
+    - (* that was the last attempt: the next iteration returns the error at once *)
+      subst att. destruct f as [|f']; cbn [reloc_search] in S2.
+      + inversion S2; subst d1. lia.
+      + replace (MAX_ATTEMPTS <? MAX_ATTEMPTS + 1) with true in S2 by (symmetry; apply N.ltb_lt; lia).
+        cbn [orb] in S2. inversion S2; subst d1. lia.
+    - assert (Hlt2 : att + 1 <= MAX_ATTEMPTS) by lia.
+      pose proof (IH d' cs ns (nb + 257) (att + 1) d1 E1 Hcs Hns ltac:(lia) ltac:(lia) Hlt2 ltac:(unfold MAX_ATTEMPTS in *; lia) S2) as X.
+      unfold MAX_ATTEMPTS in *. lia. }
+  destruct ((nb + ns =? 0) || negb (is_free_word (cget d' (nb + ns))))%bool eqn:C1.
+  - apply Hrec; [|assumption]. apply orb_true_iff in C1 as [C1|C1]; [apply N.eqb_eq in C1; lia|].
+    apply negb_true_iff in C1. apply (Hcol ns); [lia | assumption].
+  - destruct (existsb _ cs) eqn:C2; [|discriminate].
+    apply Hrec; [|assumption]. apply existsb_exists in C2 as (c & Hc & C2). cbv zeta in C2.
+    rewrite Hsat in C2 by (specialize (Hcs c Hc); lia).
+    apply orb_true_iff in C2 as [C2|C2]; [apply N.eqb_eq in C2; lia|].
+    apply negb_true_iff in C2. apply (Hcol (c_sym c)); [lia | assumption].
+Qed.
+
 (* ---------------------------------------------------------------- relocate_state as a whole *)
 Lemma existsb_pos_iff cs j : existsb (fun c : child_t => c_pos c =? j) cs = true <-> exists c, In c cs /\ c_pos c = j.
 Proof.
@@ -170,7 +217,7 @@ Lemma relocate_spec d addr st ns d' nb :
   relocate_state d st ns = (d', Some nb) ->
   exists addr', DInv d' addr' /\ used d' st /\ addr' st = addr st /\ bv d' st = nb /\
      is_free_word (cget d' (nb + ns)) = true /\ nb + ns < blen d' /\
-     (forall k, View d' addr' k <-> View d addr k).
+     (forall k, View d' addr' k <-> View d addr k) /\ blen d <= blen d'.
 Proof.
   intros I U Hb Hns Hnt R.
   pose proof (di_lens _ _ I) as Hl. pose proof (di_len _ _ I) as [L1 L2].
@@ -371,7 +418,7 @@ Proof.
   split.
   { rewrite X1. destruct (di_free _ _ I _ S9) as [F1 _]. rewrite F1.
     rewrite subst_o_notin; [reflexivity|]. intros c2 Hc2. destruct (FO c2 Hc2) as (_ & _ & _ & F4). rewrite FREE_WORD_eq. lia. }
-  split; [lia|].
+  split; [lia|]. split; [|lia].
   (* the language is unchanged *)
   intro k. unfold View. split.
   - intros (q & Uq & A & T). destruct (U1 q Uq) as [(c & Hc & ->)|(E3 & E4 & Uqd)].
@@ -386,4 +433,21 @@ Proof.
       exists q. split; [apply U3; assumption|]. split; [rewrite (A_oth q E5); assumption|].
       destruct (N.eq_dec q st) as [->|Hq]; [congruence|].
       destruct (G3 q E4 E5) as [_ X2]. unfold tm in *. rewrite X2 by assumption. assumption.
+Qed.
+
+
+(* relocate_state reports an error only with arrays longer than 257 * 10000 slots *)
+Lemma relocate_err d addr st ns d1 : DInv d addr -> used d st -> bv d st <> NIL_STATE -> ns < 256 ->
+  relocate_state d st ns = (d1, None) -> HUGE < blen d1.
+Proof.
+  intros I U Hb Hns R. pose proof (di_lens _ _ I) as Hl. pose proof (di_len _ _ I) as [L1 L2].
+  unfold relocate_state in R. fold (bv d st) in R.
+  pose proof (children_ok d addr st I U Hb) as CO.
+  destruct (reloc_search (N.to_nat (MAX_ATTEMPTS + 2)) d (reloc_children d st (bv d st)) ns (find_free_base st) 0) as [d2 [r|]] eqn:S; [discriminate|].
+  inversion R; subst d2; clear R.
+  assert (Hcs256 : forall c, In c (reloc_children d st (bv d st)) -> c_sym c < 256) by (intros c Hc; apply (co_each _ _ _ _ CO c Hc)).
+  assert (Hstl : st < blen d) by (rewrite Hl; apply used_lt; assumption).
+  pose proof (search_err (N.to_nat (MAX_ATTEMPTS + 2)) d _ ns (find_free_base st) 0 d1 Hl Hcs256 Hns) as X.
+  unfold HUGE. unfold find_free_base, K0, LMAX, MAX_ATTEMPTS in *.
+  specialize (X ltac:(lia) ltac:(lia) ltac:(lia) ltac:(lia) S). lia.
 Qed.
